@@ -3,6 +3,11 @@
 EXPECTED_THEOREMS = {
     "C01": ["step_refines", "history_refines", "history_from_new", "get_by_borrowed_form", "srun_borrowed",
             "index_panics_iff_absent", "sim_observables"],
+    "C07": ["set_step_refines", "set_history_refines", "set_history_from_new", "insert_true_iff_absent",
+            "remove_reports_presence", "sset_borrowed"],
+    "C12": ["insert_keeps_stored_key", "checked_insert_keeps_stored_key", "insert_key_value_swaps_key",
+            "insert_ii_for_full_identity", "get_exposes_stored", "remove_entry_exposes_stored",
+            "iteration_exposes_stored", "set_insert_keeps_stored", "set_replace_swaps"],
     "C03": ["insert_full_absent", "insert_key_value_full_absent", "checked_insert_full_absent",
             "insert_present_on_full", "checked_insert_present_on_full", "insert_key_value_present_on_full",
             "insert_len_le_cap"],
